@@ -506,8 +506,17 @@ def _max_paths(cfg, head, marks, region, stop_at_header):
     return r if r is not None else 0
 
 
+def rule_initial_state(ctx, rep, pid):
+    from .rules_fw import check_initial_state
+    rep.rule(pid + '.R7', 'initial-state table of Framework::new: the two fraction parameters land in the same-named fields, all clocks start at '
+             'current_time, counters and durations start at zero, blocking inactive, no signal pending; MachineRuntime starts in state 0 with '
+             'zero counters and allowed_blocked_microsec from the machine')
+    check_initial_state(ctx, rep, pid + '.R7')
+
+
 def check_C02(ctx, rep):
     pid = 'C02'
+    rule_initial_state(ctx, rep, pid)
     rule_gating(ctx, rep, pid)
     rule_kind_table(ctx, rep, pid)
     check_padding(ctx, rep, pid)
@@ -785,6 +794,9 @@ def check_clock(ctx, rep, pid):
 
 def check_C03(ctx, rep):
     pid = 'C03'
+    rule_initial_state(ctx, rep, pid)
+    from .rules_fw import check_time_impl
+    check_time_impl(ctx, rep, pid + '.R6')
     rule_gating(ctx, rep, pid)
     rule_kind_table(ctx, rep, pid)
     check_blocking(ctx, rep, pid)
@@ -1063,6 +1075,9 @@ def check_limit_everywhere(ctx, rep, pid):
 
 def check_C07(ctx, rep):
     pid = 'C07'
+    from .rules_fw import check_sample_limit
+    rep.rule('C07.R5', 'Action::sample_limit: STATE_LIMIT_MAX (= u64::MAX) only for actions without a limit distribution, otherwise the rounded, saturating-cast sample of that action\'s own limit distribution')
+    check_sample_limit(ctx, rep, 'C07.R5')
     check_state_limit_writers(ctx, rep, pid)
     check_decrement_sites(ctx, rep, pid)
     check_limit_reached(ctx, rep, pid)
